@@ -286,8 +286,8 @@ impl Scenario for LinkScenario {
 
     fn runs(&self, tier: Tier) -> u64 {
         match tier {
-            Tier::Quick => 60_000,
-            Tier::Thorough => 1_500_000,
+            Tier::Quick => 180_000,
+            Tier::Thorough => 6_000_000,
         }
     }
 
